@@ -3,7 +3,7 @@
    All statements are about the exact-rational instance (exactQ) of the model
    in Geom/Matrix.v; Check/C17.v ties the float32 instance of the same
    definitions to /repo on every run. *)
-From Verif Require Import Base.F32 Geom.Matrix Geom.TransformSpec Geom.MatrixProofs Geom.TransformReal.
+From Verif Require Import Base.F32 Geom.Matrix Geom.TransformSpec Geom.MatrixProofs Geom.MatrixMore Geom.TransformReal.
 From Coq Require Import QArith Reals.
 Open Scope Q_scope.
 
@@ -93,3 +93,30 @@ Print Assumptions C17_rotation_homomorphism.
 Theorem C17_rotation_det_1 : forall a : R, rdet (rrotate a) = 1%R.
 Proof. exact rotation_det_1. Qed.
 Print Assumptions C17_rotation_det_1.
+
+(* final round: further algebraic laws (Geom/MatrixMore.v) *)
+Theorem C17_det_multiplicative : forall t u,
+  determinant exactQ (mmul exactQ t u) == determinant exactQ t * determinant exactQ u.
+Proof. exact det_mul. Qed.
+Print Assumptions C17_det_multiplicative.
+
+Theorem C17_translate_translate : forall t a b c d,
+  meq (translate exactQ (translate exactQ t a b) c d) (translate exactQ t (a + c) (b + d)).
+Proof. exact translate_translate. Qed.
+Print Assumptions C17_translate_translate.
+
+Theorem C17_scale_scale : forall t a b c d,
+  meq (scale exactQ (scale exactQ t a b) c d) (scale exactQ t (a * c) (b * d)).
+Proof. exact scale_scale. Qed.
+Print Assumptions C17_scale_scale.
+
+Theorem C17_det_translate_scale : forall t a b,
+  determinant exactQ (translate exactQ t a b) == determinant exactQ t /\
+  determinant exactQ (scale exactQ t a b) == determinant exactQ t * (a * b).
+Proof. intros t a b; split; [exact (det_translate t a b) | exact (det_scale t a b)]. Qed.
+Print Assumptions C17_det_translate_scale.
+
+Theorem C17_product_singular_iff_factor_singular : forall t u,
+  invert exactQ (mmul exactQ t u) = None <-> invert exactQ t = None \/ invert exactQ u = None.
+Proof. exact invert_mul_none_iff. Qed.
+Print Assumptions C17_product_singular_iff_factor_singular.
